@@ -9,6 +9,9 @@ CLAIMS = {
  'C07': dict(cat='proof', ref='DESIGN.md 7 (C07)',
    text="Each matching rule of the statement is an ensures clause on getIndex / getSetIndex / getDataFrameIndex / getSampledIndex (extracted from src/Dimensions.cpp on every run); CBMC discharges them for all positions, all tick vectors up to 2^20 entries, all 64-bit label/row counts. Sampled axes: all positions on an enumerated grid of (interval, offset) constants - stated as such, not a proof over all intervals.",
    note=NOTE_COMMON + "Assumed contract of std::lower_bound. Premises: ticks strictly ascending, positions not NaN, |position| < 2^53 on integer axes. Sampled axis: grid of constants, not all intervals."),
+ 'C01': dict(cat='proof', ref='DESIGN.md 7 (C01), 12',
+   text="Kernel claim, appendData only: it rejects an axis outside the rank and any rank or off-axis shape mismatch without touching the array, otherwise grows the extent along the axis by exactly count[axis] and then writes count elements at offset (0,..,old extent[axis],..,0) - 'append = grow then write at old end' as a postcondition for every extent and count.",
+   note=NOTE_COMMON + "Kernel only (quick tier ranks 0..4, thorough 0..32): what HDF5 stores and returns, element types, chunking, compression, strings, reopen are not covered; the calibrated read path and the value of the polynomial are not covered (symbolic double products do not terminate in CBMC)."),
  'C09': dict(cat='proof', ref='DESIGN.md 7 (C09), 12',
    text="Kernel claim: the mode decisions of the open path are postconditions of map_file_mode, of two statement regions of the FileHDF5 constructor (mode forced to Overwrite for a missing path; H5Fopen RDONLY / RDWR vs H5Fcreate TRUNC, exactly one libhdf5 call), of File::open's ReadOnly-on-missing-path guard, of setCreatedAt/setUpdatedAt (written iff missing) and of checkHeader (header defects refused).",
    note=NOTE_COMMON + "Kernel only: that libhdf5 honours H5F_ACC_RDONLY (never changes a byte), that mutating calls fail on a read-only handle and that TRUNC empties the file are assumed, not verified. fileExists / boost::filesystem::exists are one ghost constant."),
@@ -38,7 +41,7 @@ NA = {
  'C20': "breadth-first search over std::list/std::function on HDF5-backed handles; not extractable without writing a model",
 }
 PENDING = {k: "check not built yet (planned kernel claim, DESIGN.md section 7)" for k in
-           ['C01', 'C05', 'C06', 'C14', 'C18', 'C19']}
+           ['C05', 'C06', 'C14', 'C18', 'C19']}
 def main():
     extra = json.load(open(os.path.join(ROOT, 'vlib', 'claims_extra.json'))) if os.path.exists(os.path.join(ROOT, 'vlib', 'claims_extra.json')) else {}
     checks = []
